@@ -83,7 +83,7 @@ func c10GenStep(rnd *Rand, r *c10Ref) c10Step {
 		}
 		return i.n
 	}
-	switch rnd.Pick([]int{6, 8, 8, 6, 6, 4, 3, 3, 3, 6, 6, 4, 3, 3, 4, 4, 3, 2}) {
+	switch rnd.Pick([]int{6, 8, 8, 6, 6, 4, 3, 3, 3, 6, 6, 4, 3, 3, 4, 4, 3, 2, 4}) {
 	case 0: // new literal
 		v := pickSl()
 		n := rnd.Intn(5)
@@ -166,6 +166,13 @@ func c10GenStep(rnd *Rand, r *c10Ref) c10Step {
 		s := scalar()
 		return c10Step{src: w + " = " + v + " + [" + s.src + "]; probe(len(" + w + "))", run: func(r *c10Ref) interface{} {
 			x := append(r.slice(v), s.val)
+			r.vars[w] = x
+			return int64(len(x))
+		}}
+	case 18: // slice + slice
+		v, u, w := pickSl(), pickSl(), pickSl()
+		return c10Step{src: w + " = " + v + " + " + u + "; probe(len(" + w + "))", run: func(r *c10Ref) interface{} {
+			x := append(r.slice(v), r.slice(u)...)
 			r.vars[w] = x
 			return int64(len(x))
 		}}
@@ -377,6 +384,14 @@ func c10DirectedUntyped() []c10Program {
 		{"a = [1, 2, 3]; func(z) { z[0] = 5; z += [9] }(a); probe(a)", p([]interface{}{i(5), i(2), i(3)})},
 		{"a = [[1, 2], [3]]; b = a[0]; b[1] = 7; probe(a)", p([]interface{}{[]interface{}{i(1), i(7)}, []interface{}{i(3)}})},
 		{"a = [1, 2, 3]; probe(2 in a); probe(5 in a); probe(len(a[1:]))", j(p(true), p(false), p(i(2)))},
+		// keys that are unhashable only by what they currently hold
+		{"k = make(struct { A interface }); k.A = [1, 2]; m = {\"a\": 1}; r = \"ok\"; try { m[k] = 5 } catch e { r = \"E\" }; probe(r); probe(len(m)); probe(m[k]); r = \"ok\"; try { delete(m, k) } catch e { r = \"E\" }; probe(r); probe(len(m))",
+			j(p("E"), p(i(1)), p(nil), p("E"), p(i(1)))},
+		{"k = make(struct { A interface }); k.A = 7; m = {\"a\": 1}; m[k] = 5; probe(len(m)); probe(m[k]); delete(m, k); probe(len(m))", j(p(i(2)), p(i(5)), p(i(1)))},
+		{"k = make(struct { A interface }); k.A = {\"z\": 1}; m = make(map[interface]int64); r = \"ok\"; try { m[k] = 5 } catch e { r = \"E\" }; probe(r); probe(len(m))", j(p("E"), p(i(0)))},
+		{"f = func() { }; m = {}; r = \"ok\"; try { m[f] = 1 } catch e { r = \"E\" }; probe(r); probe(m[f]); probe(len(m))", j(p("E"), p(nil), p(i(0)))},
+		{"a = [1, 2, 3]; b = []; b += a; b[0] = 9; probe(a); probe(b)", j(p([]interface{}{i(1), i(2), i(3)}), p([]interface{}{i(9), i(2), i(3)}))},
+		{"src = [1, 2, 3, 4]; w = src[0:0]; w += [7, 8]; probe(src); probe(w)", j(p([]interface{}{i(7), i(8), i(3), i(4)}), p([]interface{}{i(7), i(8)}))},
 	}
 }
 
